@@ -68,6 +68,17 @@ def _events(args):
             c2 = mk_fresh().cds if mk_fresh else None  # fresh object: sequence before any codon listing
             row += [E.outcome(lambda: list(str((c2 if c2 is not None else c).extract_sequence()))), ["v", 0]]
             row += [E.outcome(lambda: [f.value for f in c.chunk_relative_frames]), bool(minus_chunk)]
+            # WINDOWED scans of the chunk-built CDS (chromosome bounds a, b): the whole-chromosome codons that lie fully
+            # inside the chunk AND the window -- whatever the window trims off the 5' end, frame is kept
+            if not (len(cds) == 1 and frames and frames[0 if st == "+" else -1] != 0):   # (keyed single-exon offset finding)
+                lo, hi = cds[0][0], cds[-1][1]
+                wins = []
+                for _ in range(3):
+                    a = rnd.randrange(max(0, lo - 2), hi)
+                    b = rnd.randrange(a + 1, hi + 3)
+                    wins.append([a, b, E.outcome(lambda a=a, b=b: [E.loc(back(x)) for x in
+                                                                     c.scan_chunk_relative_codon_locations(a, b)])])
+                ev.append(["cwin", [cds, st], frames, ws, we, wins])
         elif has_cds:
             row += [["x", "CdsMissingOnChunk"]] * 5 + [["v", 0]]  # the chunk-built twin lost its CDS: judged, not hidden
         else:
